@@ -341,6 +341,12 @@ func (h *history) run() error {
 
 	ed := &editor{rng: rng, roots: h.roots, log: h.logf}
 	nRounds := 3 + rng.Intn(10)
+	// One history in ten ends with an attack on a root itself (C11 L3; the
+	// outcome is counted, not judged, by this check).
+	rootAttackAt := -1
+	if rng.Intn(10) == 0 {
+		rootAttackAt = nRounds
+	}
 	ended := ""
 	for round := 0; round <= nRounds && ended == ""; round++ {
 		rec := roundRecord{Round: round}
@@ -361,6 +367,7 @@ func (h *history) run() error {
 				h.count("l3_restarts", 1)
 			}
 			h.logf("round %d: edits", round)
+			ed.rootAttack = round == rootAttackAt
 			applied, err := ed.round(1 + rng.Intn(15))
 			if err != nil {
 				return fmt.Errorf("edits: %w", err)
@@ -479,6 +486,23 @@ func (h *history) run() error {
 			}
 		}
 		h.updateShadow(v.postA, v.postB)
+		if round == rootAttackAt {
+			h.count("l3_c11_root_attacks", 1)
+			attack := ""
+			for op := range opset {
+				if strings.HasPrefix(op, "root-") {
+					attack = op
+				}
+			}
+			if halted(st) {
+				h.count("l3_c11_halted_after:"+attack, 1)
+			} else {
+				h.count("l3_c11_not_halted_after:"+attack, 1)
+			}
+			if ended == "" {
+				ended = "root-attacked"
+			}
+		}
 
 		if len(kinds) > 0 {
 			h.res.Distinct = append(h.res.Distinct, fmt.Sprintf("l3|%s|%s|%s|%s", prop, mode, setString(opset), setString(kinds)))
